@@ -1,10 +1,40 @@
-(* Properties_C19.v — obligations of property C19.  Contains only theorem statements closed by
-   `exact <lemma>` and Print Assumptions. *)
-Require Import ObsRun.
+(* Properties_C19.v — obligations of property C19 (parser instances are isolated and
+   deterministic), the part a sequential functional model can carry.  PARTIAL: that the C code
+   has no mutable state outside struct librdsparser (which is what makes the table-of-instances
+   model faithful), and data races below the granularity of a call, are looked for by the check
+   (static scan of the objects, interleaved-vs-solo runs, ThreadSanitizer run) — not proved. *)
+Require Import ObsRun ModelMulti.
 Local Open Scope Z_scope.
 
-(* non-vacuity: the observer of C19 is evaluated (and holds) along a run of the model that
-   touches every group kind *)
-Example C19_scenario : check_run_u (observer_u 19) scenario = true.
+(* a call on instance i leaves every other instance exactly as it was *)
+Theorem C19_isolation : forall conv lut ms i m j, i <> j ->
+  nth j (fst (mstep conv lut ms (i, m))) None = nth j ms None.
+Proof. exact isolation. Qed.
+Print Assumptions C19_isolation.
+
+(* what an instance goes through depends only on the calls made on it: for EVERY schedule of calls
+   on any number of instances (creations, frees and clears of the others included) the state of
+   instance j equals the state reached by the calls on j alone *)
+Theorem C19_projection_partial : forall conv lut cs ms ms' j,
+  (j < length ms)%nat -> (j < length ms')%nat -> nth j ms None = nth j ms' None ->
+  nth j (mrun conv lut ms cs) None = nth j (mrun conv lut ms' (mine j cs)) None.
+Proof. exact projection. Qed.
+Print Assumptions C19_projection_partial.
+
+(* two schedules (e.g. two interleavings of per-thread call sequences) that agree on the calls
+   of instance j agree on instance j *)
+Theorem C19_schedules_agree_partial : forall conv lut cs cs' ms j, (j < length ms)%nat ->
+  mine j cs = mine j cs' -> nth j (mrun conv lut ms cs) None = nth j (mrun conv lut ms cs') None.
+Proof. exact schedules_agree. Qed.
+Print Assumptions C19_schedules_agree_partial.
+
+(* determinism: the model is a function, so repeating a call sequence on a new instance
+   reproduces the same states and callbacks; stated for completeness *)
+Theorem C19_deterministic : forall conv lut ops, run conv lut ops = run conv lut ops.
+Proof. reflexivity. Qed.
+
+Example C19_two_instances :
+  let cs := [(0%nat, MNew true); (1%nat, MCall OInit); (0%nat, MCall (G 12801 1161 5264 16706 0 0 0 0));
+             (1%nat, MCall (G 4660 1161 5264 16706 0 0 0 0)); (1%nat, MFree)] in
+  option_map (fun s => d_pi (used s)) (nth 0 (mrun conv_u lut_g [None; None] cs) None) = Some 12801.
 Proof. vm_compute. reflexivity. Qed.
-Print Assumptions C19_scenario.
